@@ -1481,4 +1481,67 @@ example : keyAuth (fun k => if k = "raw-api-key".toList then .yes else .no) ⟨[
       [[("Authorization".toList, "Bearer abc".toList)]] = some ⟨false, 401, 0, ["Bearer abc".toList]⟩ := by decide
 example : commitB (some 202) (unauthorized [("u".toList, "p".toList)]) = ⟨false, 202, false, [("u".toList, "p".toList)]⟩ := by decide
 
+/-! ## round 8: keys that look encoded
+
+No extractor decodes anything: whatever bytes net/http hands over at a lookup location — `%41`, `+`, `%zz`, base64,
+character references — are the key.  For a cookie, query, form or param source the key is the WHOLE value; for a header
+source the value behind the cut-prefix.  (Query and form values arrive decoded once by net/http; that decoding is the
+transport's and happens before the extractor — the model's input is what net/http found.) -/
+
+/-- **C13_key_verbatim** — what an extractor yields for one located (name, value) pair is the value itself, byte for
+    byte, for every source kind except `header`; for a header source it is a suffix of the value. -/
+theorem C13_key_verbatim (s : Src) (nv : Str × Str) (k : Str) (h : keyOf s nv = some k) :
+    (s.kind ≠ .header → k = nv.2 ∧ ((s.kind = .cookie ∨ s.kind = .param) → nv.1 = s.name)) ∧
+    (s.kind = .header → ∃ cut, nv.2 = cut ++ k ∧ cut.length = s.pre.length) := by
+  unfold keyOf at h
+  cases hk : s.kind <;> rw [hk] at h <;> simp only at h
+  · -- header
+    refine ⟨fun hne => absurd rfl hne, fun _ => ?_⟩
+    unfold hdrKey at h
+    by_cases h0 : s.pre.length = 0
+    · simp only [h0, if_true] at h
+      exact ⟨[], by simpa using Option.some.inj h, by simp [h0]⟩
+    · simp only [h0, if_false] at h
+      by_cases h1 : nv.2.length > s.pre.length ∧ eqFold (nv.2.take s.pre.length) s.pre = true
+      · simp only [h1, and_self, if_true] at h
+        refine ⟨nv.2.take s.pre.length, ?_, ?_⟩
+        · rw [← Option.some.inj h]; simp
+        · simp; omega
+      · simp only [h1, if_false] at h; cases h
+  · exact ⟨fun _ => ⟨(Option.some.inj h).symm, fun hc => by rcases hc with hc | hc <;> cases hc⟩, fun hc => by cases hc⟩
+  · exact ⟨fun _ => ⟨(Option.some.inj h).symm, fun hc => by rcases hc with hc | hc <;> cases hc⟩, fun hc => by cases hc⟩
+  · refine ⟨fun _ => ?_, fun hc => by cases hc⟩
+    unfold cookieKey at h
+    by_cases hn : s.name = nv.1
+    · simp only [hn, if_true] at h; exact ⟨(Option.some.inj h).symm, fun _ => hn.symm⟩
+    · simp only [hn, if_false] at h; cases h
+  · refine ⟨fun _ => ?_, fun hc => by cases hc⟩
+    unfold cookieKey at h
+    by_cases hn : s.name = nv.1
+    · simp only [hn, if_true] at h; exact ⟨(Option.some.inj h).symm, fun _ => hn.symm⟩
+    · simp only [hn, if_false] at h; cases h
+
+/-- **C13_key_calls_verbatim** — hence: behind KeyAuth whose lookup sources are all cookies (or query / form / param
+    sources), every key the validator is shown is the complete value of a pair net/http located at a configured
+    source of the request — no unescaping, trimming or cutting, whatever bytes the value consists of. -/
+theorem C13_key_calls_verbatim (V : Str → Outcome) (cfg : KCfg) (data : List (List (Str × Str)))
+    (o : KObs) (h : keyAuth V cfg data = some o) (hk : ∀ s ∈ cfg.sources, s.kind ≠ .header) :
+    ∀ k ∈ o.calls, ∃ sd ∈ cfg.sources.zip data, ∃ nv ∈ sd.2, nv.2 = k ∧
+      ((sd.1.kind = .cookie ∨ sd.1.kind = .param) → nv.1 = sd.1.name) := by
+  intro k hkm
+  obtain ⟨sd, hsd, nv, hnv, hkey⟩ := C13_key_calls_literal V cfg data o h k hkm
+  have hs : sd.1 ∈ cfg.sources := (List.of_mem_zip hsd).1
+  have := (C13_key_verbatim sd.1 nv k hkey).1 (hk sd.1 hs)
+  exact ⟨sd, hsd, nv, hnv, this.1.symm, this.2⟩
+
+-- the witness of the missed change: cookie `key=k%41z`.  A validator that accepts only the unescaped text `kAz` is
+-- shown `k%41z` and says no; one that accepts exactly the cookie's text says yes and the handler runs
+example :
+    keyAuth (fun k => if k = "kAz".toList then .yes else .no) ⟨[⟨.cookie, "key".toList, []⟩], .absent, false⟩
+      [[("other".toList, "kAz".toList), ("key".toList, "k%41z".toList)]] = some ⟨false, 401, 0, ["k%41z".toList]⟩ ∧
+    keyAuth (fun k => if k = "k%41z/%2Bx".toList then .yes else .no) ⟨[⟨.cookie, "key".toList, []⟩], .absent, false⟩
+      [[("key".toList, "k%41z/%2Bx".toList)]] = some ⟨true, 200, 0, ["k%41z/%2Bx".toList]⟩ ∧
+    keyAuth (fun k => if k = "a b".toList then .yes else .no) ⟨[⟨.header, "X-Api-Key".toList, []⟩], .absent, false⟩
+      [[("X-Api-Key".toList, "a+b".toList)]] = some ⟨false, 401, 0, ["a+b".toList]⟩ := by decide
+
 end C13
